@@ -61,6 +61,12 @@ type Expr struct {
 	UClasses []string `json:"ucl,omitempty"`
 	Inv      bool     `json:"inv,omitempty"`
 
+	// KLit / KClass: Sp selects the source spelling (0 = canonical): quoting of a literal
+	// and, per member rune, the escape form (raw, \ooo, \xhh, \uhhhh, \Uhhhhhhhh). The form
+	// of a rune depends on Sp and the rune only, so editing the members keeps the spelling
+	// of the others.
+	Sp int `json:"sp,omitempty"`
+
 	// KRef: rule name; KLabel: label name; KThrow: failure label.
 	Name string `json:"name,omitempty"`
 
